@@ -267,7 +267,7 @@ def r2(cx):
                     c = switch_cond(body, du, term)
                     if c.kind == "discr" and c.place.l == t.dest.l:
                         some = variant_edge(term, 1)
-                        oks = any(e.bb in cfg.reach(some[2], blocked_nodes=nexts) for e in errins) and cfg.must_pass(dst, list(nexts), {t.bb})
+                        oks = any(e.bb in cfg.after(some, blocked_nodes=nexts) for e in errins) and cfg.must_pass(dst, list(nexts), {t.bb})
                         break
         cells += 1
         cx.check(oks, "C11.R2", "from_token:%s:same-kind-duplicate" % kind, site, "a repeated %s name is not reported (map insert returning Some must record an error)" % kind.lower(), note_ok="insert()==Some -> error recorded")
@@ -292,7 +292,7 @@ def r2(cx):
                 te, fe = bool_edges(b.term, c)
                 okret = [s.bb for s in tf.stmts() if s.kind == "assign" and s.lhs.l == 0 and s.rv == "agg" and isinstance(s.agg, dict) and s.agg.get("variant") == "Ok"]
                 idl = [s.bb for s in tf.stmts() if s.kind == "assign" and s.rv == "agg" and isinstance(s.agg, dict) and s.agg.get("variant") == "Idl"]
-                okt = bool(okret) and bool(idl) and all(x in tcfg.reach(te[2]) and x not in tcfg.reach(fe[2]) for x in okret) and all(x in tcfg.reach(fe[2]) and x not in tcfg.reach(te[2]) for x in idl)
+                okt = bool(okret) and bool(idl) and all(x in tcfg.after(te) and x not in tcfg.after(fe) for x in okret) and all(x in tcfg.after(fe) and x not in tcfg.after(te) for x in idl)
     cx.check(okt, "C11.R2", "try_from:Err-iff-errors", tf.sp, "try_from does not return Ok exactly when the error set is empty and Error::Idl otherwise", note_ok="error.is_empty() ? Ok(interface) : Err(Idl(sorted, joined))")
     srt = tf.calls("=sort") + tf.calls("=sort_unstable")
     cx.check(bool(srt) and bool(tf.calls("=join")), "C11.R2", "try_from:all-errors-reported", tf.sp, "the collected messages are not sorted and joined into the error (some duplicate may go unnamed)", note_ok="all messages sorted and joined")
